@@ -40,18 +40,26 @@ fn announce_iter_stacks() {
 
 /// C19: `==` / `!=` of two maps vs the sequence oracle
 pub fn eq_map<S: Src, const N: usize>(s: &mut S) {
-    let (a, ra) = pre::<S, N>(s);
-    let (b, rb) = pre::<S, N>(s);
+    let (mut a, ra) = pre::<S, N>(s);
+    let (mut b, rb) = pre::<S, N>(s);
+    if N == 1 {
+        // a single slot is the childless root of length 0 (implied by WF); say so for symex
+        a[0] = ((a[0].0 .0, 0), a[0].1, None, None);
+        b[0] = ((b[0].0 .0, 0), b[0].1, None, None);
+    }
     let ma = mk_map_simple(&a, &ra);
     let mb = mk_map_simple(&b, &rb);
     announce_iter_stacks();
     let exp = same_entries(&a, &ra, &b, &rb, true);
     check!(s, (ma == mb) == exp, "C19:maps are equal exactly when they store the same sequence of (stored prefix, value) pairs");
-    check!(s, (ma != mb) == !exp, "C19:!= is the negation of ==");
+    if N > 1 {
+        check!(s, (ma != mb) == !exp, "C19:!= is the negation of ==");
+    }
     cover!(s, exp && count(&a, &ra) >= 1, "equal non-empty maps");
     cover!(s, !exp && count(&a, &ra) == 0 && count(&b, &rb) >= 1, "empty map against non-empty map");
-    cover!(s, !exp && count(&a, &ra) < count(&b, &rb) && count(&a, &ra) >= 1, "operands with different entry counts");
-    cover!(s, exp && N >= 3 && (canon(&a, &ra) != canon(&b, &rb)), "equal contents, different shapes");
+    cover!(s, N < 2 || (!exp && count(&a, &ra) < count(&b, &rb) && count(&a, &ra) >= 1), "operands with different entry counts");
+    cover!(s, N < 3 || (exp && (canon(&a, &ra) != canon(&b, &rb))), "equal contents, different shapes");
+    cover!(s, !exp && count(&a, &ra) == 1 && count(&b, &rb) == 1 && same(&a[0].0, &b[0].0) && a[0].1 == b[0].1, "same key and value, different host bits");
     std::mem::forget(ma);
     std::mem::forget(mb);
 }
@@ -70,8 +78,12 @@ fn mk_set<const N: usize>(nodes: &[Raw; N], r: &[bool; N]) -> PrefixSet<P> {
 
 /// C19: `==` of two sets
 pub fn eq_set<S: Src, const N: usize>(s: &mut S) {
-    let (a, ra) = pre::<S, N>(s);
-    let (b, rb) = pre::<S, N>(s);
+    let (mut a, ra) = pre::<S, N>(s);
+    let (mut b, rb) = pre::<S, N>(s);
+    if N == 1 {
+        a[0] = ((a[0].0 .0, 0), a[0].1, None, None);
+        b[0] = ((b[0].0 .0, 0), b[0].1, None, None);
+    }
     let sa = mk_set(&a, &ra);
     let sb = mk_set(&b, &rb);
     announce_iter_stacks();
@@ -168,7 +180,8 @@ pub fn collect2<S: Src>(s: &mut S) {
 
 /// C10/C01/C04/C15/C16/C20: retain with a predicate that returns the k-th of N symbolic decisions
 /// and observes the map (through a raw pointer) at every invocation.
-pub fn retain<S: Src, const N: usize, const F: usize>(s: &mut S) {
+/// `OBS`: observe the map at every predicate invocation (C20); otherwise only the final state.
+pub fn retain<S: Src, const OBS: bool, const STRUCT: bool, const N: usize, const F: usize>(s: &mut S) {
     let pre = crate::step::pre::<S, N, F>(s);
     let mut map = mk_map(&pre.nodes, &pre.free, pre.count, N, N);
     let mut dec = [false; N];
@@ -194,11 +207,13 @@ pub fn retain<S: Src, const N: usize, const F: usize>(s: &mut S) {
         let k = calls;
         calls += 1;
         let keep = if k < N { dec[k] } else { true };
-        // state observed at the k-th invocation: this is what a panic here would leave behind
-        let m: &PrefixMap<P, u8> = unsafe { &*mp };
-        let (now, len) = readback::<N>(m);
-        let r = reach(&now);
-        bad_obs = bad_obs || !(len == N && wf(&now, &r) && m.__verif_count() == count(&now, &r) && count(&now, &r) + rejected == pre.count);
+        if OBS {
+            // state observed at the k-th invocation: this is what a panic here would leave behind
+            let m: &PrefixMap<P, u8> = unsafe { &*mp };
+            let (now, len) = readback::<N>(m);
+            let r = reach(&now);
+            bad_obs = bad_obs || !(len == N && wf(&now, &r) && m.__verif_count() == count(&now, &r) && count(&now, &r) + rejected == pre.count);
+        }
         if p as *const P == addr[z] {
             hits_z += 1;
             keep_z = keep;
@@ -214,10 +229,14 @@ pub fn retain<S: Src, const N: usize, const F: usize>(s: &mut S) {
     check!(s, hits_z == if z_entry { 1 } else { 0 }, "C10:retain evaluates the predicate exactly once for each entry (with its stored prefix and value)");
     check!(s, !bad_obs, "C20:at every predicate invocation the map is well-formed, size-consistent and holds the previous entries minus those already rejected");
     check!(s, map.len() == pre.count - rejected, "C04:len() after retain");
-    let got = map.get_key_value(&pre.nodes[z].0).map(|(p, v)| (*p, *v));
-    let exp = if z_entry && keep_z { Some((pre.nodes[z].0, pre.nodes[z].1.unwrap())) } else if z_entry { None } else { got };
-    check!(s, got == exp, "C10,C01:retain removes exactly the rejected entries and keeps the others with value and representation");
-    crate::step::check_structure::<S, { crate::step::SHAPE | crate::step::SLOTS }, N, F, N, N>(s, &pre, &map, true);
+    if !STRUCT && !OBS {
+        let got = map.get_key_value(&pre.nodes[z].0).map(|(p, v)| (*p, *v));
+        let exp = if z_entry && keep_z { Some((pre.nodes[z].0, pre.nodes[z].1.unwrap())) } else if z_entry { None } else { got };
+        check!(s, got == exp, "C10,C01:retain removes exactly the rejected entries and keeps the others with value and representation");
+    }
+    if STRUCT {
+        crate::step::check_structure::<S, { crate::step::SHAPE | crate::step::SLOTS }, N, F, N, N>(s, &pre, &map, true);
+    }
     cover!(s, rejected >= 2, "two or more entries rejected");
     cover!(s, rejected == 1 && pre.count >= 2, "one rejected, one kept");
     cover!(s, N < 3 || (rejected >= 1 && map.__verif_free().len() >= pre.free.len + 2), "a rejection collapsed a value-less parent");
@@ -313,4 +332,208 @@ pub fn canon_unique<S: Src, const N: usize>(s: &mut S) {
     let q = any_p(s);
     check!(s, node_at(&a, &ra, &q).is_some() == node_at(&b, &rb, &q).is_some(), "C15:canonical tries with equal key sets have equal node sets");
     cover!(s, count(&a, &ra) >= 2 && node_at(&a, &ra, &q).is_some() && lookup(&a, &ra, &q).is_none() && q.1 > 0, "a branching node");
+}
+
+/// C10/C15/C16: retain on one concrete 7-slot shape that exercises the "my parent was collapsed"
+/// propagation two levels deep (symbolic values and predicate decisions, concrete topology):
+///   root -> P=0/1 (value-less) -> { I=00/2 (value-less) -> { L1=000/3, L2=001/3 }, S=01/2 -> C=010/3 }
+pub fn retain_shape7<S: Src>(s: &mut S) {
+    const N: usize = 7;
+    let v1 = s.u8();
+    let v2 = s.u8();
+    let v3 = s.u8();
+    let v4 = s.u8();
+    let nodes: [Raw; N] = [
+        ((0x00, 0), None, Some(1), None),
+        ((0x00, 1), None, Some(2), Some(5)),
+        ((0x00, 2), None, Some(3), Some(4)),
+        ((0x00, 3), Some(v1), None, None),
+        ((0x20, 3), Some(v2), None, None),
+        ((0x40, 2), Some(v3), Some(6), None),
+        ((0x40, 3), Some(v4), None, None),
+    ];
+    let r = [true; N];
+    let mut dec = [false; 4];
+    let mut i = 0;
+    while i < 4 {
+        dec[i] = s.bool();
+        i += 1;
+    }
+    let mut map = mk_map::<N, 0>(&nodes, &Free::<0>::empty(), 4, N, N);
+    let mut calls = 0usize;
+    // post-order: L1, L2, C, S
+    let keep = |p: &P| -> bool {
+        if *p == (0x00, 3) {
+            dec[0]
+        } else if *p == (0x20, 3) {
+            dec[1]
+        } else if *p == (0x40, 3) {
+            dec[2]
+        } else {
+            dec[3]
+        }
+    };
+    map.retain(|p, _| {
+        calls += 1;
+        keep(p)
+    });
+    check!(s, calls == 4, "C10:retain evaluates the predicate once per stored entry");
+    let kept = (dec[0] as usize) + (dec[1] as usize) + (dec[2] as usize) + (dec[3] as usize);
+    check!(s, map.len() == kept, "C04:len() after retain");
+    check!(s, map.get(&(0x00, 3)).copied() == if dec[0] { Some(v1) } else { None }, "C10,C01:retain keeps/removes L1 as decided");
+    check!(s, map.get(&(0x20, 3)).copied() == if dec[1] { Some(v2) } else { None }, "C10,C01:retain keeps/removes L2 as decided");
+    check!(s, map.get(&(0x40, 3)).copied() == if dec[2] { Some(v4) } else { None }, "C10,C01:retain keeps/removes C as decided");
+    check!(s, map.get(&(0x40, 2)).copied() == if dec[3] { Some(v3) } else { None }, "C10,C01:retain keeps/removes S as decided");
+    let (post, len) = readback::<N>(&map);
+    let pr = reach(&post);
+    check!(s, len == N && wf(&post, &pr), "C15:post-state well-formed");
+    check!(s, canon(&post, &pr), "C15:post-state canonical");
+    check!(s, map.__verif_count() == count(&post, &pr), "C04,C15:counter equals number of reachable entries");
+    let fl = map.__verif_free();
+    let mut pok = fl.len() < N;
+    let mut i = 1;
+    while i < N {
+        let mut on = 0;
+        let mut j = 0;
+        while j < N {
+            if j < fl.len() && fl[j] == i {
+                on += 1;
+            }
+            j += 1;
+        }
+        pok = pok && (if pr[i] { on == 0 } else { on == 1 });
+        i += 1;
+    }
+    check!(s, pok, "C16:every slot is in the tree xor on the free list (exactly once)");
+    cover!(s, !dec[0] && !dec[1] && !dec[3], "both leaves and the sibling rejected (two collapses in a row)");
+    cover!(s, !dec[3] && dec[2], "sibling rejected, its child kept");
+    std::mem::forget(map);
+}
+
+
+/// bounded history from an empty map (arena capacity reserved, so no growth): insert, then one of
+/// {insert, remove, remove_keep_tree, entry().or_insert} chosen by a symbolic opcode, then lookups.
+/// No invariant is assumed: this guards against a representation invariant that is too strong.
+pub fn hist2<S: Src, const OP: u8>(s: &mut S) {
+    let root: [Raw; 1] = [((0, 0), None, None, None)];
+    let mut map = mk_map::<1, 0>(&root, &Free::<0>::empty(), 0, 5, 4);
+    let p1 = any_p(s);
+    let v1 = s.u8();
+    let p2 = any_p(s);
+    let v2 = s.u8();
+    let q = any_p(s);
+    let op = OP;
+    let r1 = map.insert(p1, v1);
+    check!(s, r1.is_none() && map.len() == 1, "C01,C04:first insert into an empty map");
+    // abstract state: one pair
+    let mut e1: Option<(P, u8)> = Some((p1, v1));
+    let mut e2: Option<(P, u8)> = None;
+    match op {
+        0 => {
+            let r = map.insert(p2, v2);
+            check!(s, r == if same(&p1, &p2) { Some(v1) } else { None }, "C01:insert returns previous value");
+            if same(&p1, &p2) {
+                e1 = Some((p2, v2));
+            } else {
+                e2 = Some((p2, v2));
+            }
+        }
+        1 => {
+            let r = map.remove(&p2);
+            check!(s, r == if same(&p1, &p2) { Some(v1) } else { None }, "C01:remove returns removed value");
+            if same(&p1, &p2) {
+                e1 = None;
+            }
+        }
+        2 => {
+            let r = map.remove_keep_tree(&p2);
+            check!(s, r == if same(&p1, &p2) { Some(v1) } else { None }, "C01:remove_keep_tree returns removed value");
+            if same(&p1, &p2) {
+                e1 = None;
+            }
+        }
+        _ => {
+            let r = *map.entry(p2).or_insert(v2);
+            check!(s, r == if same(&p1, &p2) { v1 } else { v2 }, "C01:or_insert returns resident value");
+            if !same(&p1, &p2) {
+                e2 = Some((p2, v2));
+            }
+        }
+    }
+    let n = e1.is_some() as usize + e2.is_some() as usize;
+    check!(s, map.len() == n && map.is_empty() == (n == 0), "C04:len()/is_empty() after two operations");
+    let exp = match (e2, e1) {
+        (Some(x), _) if same(&x.0, &q) => Some(x),
+        (_, Some(x)) if same(&x.0, &q) => Some(x),
+        _ => None,
+    };
+    check!(s, map.get_key_value(&q).map(|(p, v)| (*p, *v)) == exp, "C01,C18:lookups after a two-step history from new()");
+    if op == 1 && same(&p1, &p2) {
+        check!(s, map.__verif_len() - map.__verif_free().len() == 1, "C15,C16:remove exactly reverts insert (only the root remains in use)");
+    }
+    cover!(s, op != 0 || disjoint(&p1, &p2), "two diverging inserts (branch node)");
+    cover!(s, op != 0 || covers_strict(&p2, &p1), "second insert above the first (new intermediate child)");
+    cover!(s, op == 0 || (same(&p1, &p2) && p1.0 != p2.0), "second call addresses the first key by another representation");
+    std::mem::forget(map);
+}
+
+/// C19: building a map from the same two entries in both orders yields the same abstract map and
+/// the same canonical shape (compared through read-back; `==` itself is decided at N=1).
+pub fn rebuild2<S: Src>(s: &mut S) {
+    let root: [Raw; 1] = [((0, 0), None, None, None)];
+    let mut m1 = mk_map::<1, 0>(&root, &Free::<0>::empty(), 0, 4, 1);
+    let mut m2 = mk_map::<1, 0>(&root, &Free::<0>::empty(), 0, 4, 1);
+    let p1 = any_p(s);
+    let v1 = s.u8();
+    let p2 = any_p(s);
+    let v2 = s.u8();
+    s.assume(!same(&p1, &p2));
+    m1.insert(p1, v1);
+    m1.insert(p2, v2);
+    m2.insert(p2, v2);
+    m2.insert(p1, v1);
+    let (a, la) = readback::<4>(&m1);
+    let (b, lb) = readback::<4>(&m2);
+    let (ra, rb) = (reach(&a), reach(&b));
+    check!(s, same_entries(&a, &ra, &b, &rb, true), "C19:rebuilding from the same entries in another order stores the same sequence of (prefix, value) pairs");
+    let q = any_p(s);
+    check!(s, la == lb && node_at(&a, &ra, &q).is_some() == node_at(&b, &rb, &q).is_some(), "C15:the shape does not depend on the insertion order");
+    check!(s, m1.len() == 2 && m2.len() == 2, "C04:len() after two inserts");
+    cover!(s, disjoint(&p1, &p2), "diverging keys");
+    cover!(s, covers(&p1, &p2), "nested keys");
+    std::mem::forget(m1);
+    std::mem::forget(m2);
+}
+
+/// C10/C01/C04 (+C15/C16 with STRUCT): retain with a value-dependent predicate (keep even values):
+/// since the values are symbolic, every combination of decisions is covered.
+pub fn retain_lite<S: Src, const STRUCT: bool, const N: usize>(s: &mut S) {
+    let pre = crate::step::pre::<S, N, 0>(s);
+    let mut map = mk_map(&pre.nodes, &pre.free, pre.count, N, N);
+    let q = any_p(s);
+    let mut calls = 0usize;
+    map.retain(|_, v| {
+        calls += 1;
+        *v & 1 == 0
+    });
+    let mut kept = 0usize;
+    let mut i = 0;
+    while i < N {
+        if entry(&pre.nodes, &pre.reach, i) && pre.nodes[i].1.unwrap() & 1 == 0 {
+            kept += 1;
+        }
+        i += 1;
+    }
+    check!(s, calls == pre.count, "C10:retain evaluates the predicate once per stored entry");
+    check!(s, map.len() == kept, "C04:len() after retain");
+    if STRUCT {
+        crate::step::check_structure::<S, { crate::step::SHAPE | crate::step::SLOTS }, N, 0, N, N>(s, &pre, &map, true);
+    } else {
+        let exp = lookup(&pre.nodes, &pre.reach, &q).map(|i| (pre.nodes[i].0, pre.nodes[i].1.unwrap())).filter(|x| x.1 & 1 == 0);
+        check!(s, map.get_key_value(&q).map(|(p, v)| (*p, *v)) == exp, "C10,C01:retain removes exactly the rejected entries and keeps the others with value and representation");
+    }
+    cover!(s, pre.count >= 2 && kept == 0, "all entries rejected");
+    cover!(s, pre.count >= 2 && kept == 1, "one rejected, one kept");
+    cover!(s, N < 3 || (pre.count > kept && map.__verif_free().len() >= 2), "a rejection collapsed a value-less parent");
+    std::mem::forget(map);
 }
